@@ -463,6 +463,11 @@ func (p *Program) callMods0(c *ssa.CallCommon, out map[string]string) {
 	}
 	for _, f := range cs {
 		if ct := p.Contracts[fnName(f)]; ct != nil && !ct.HasFrame() {
+			for _, g := range ct.Havocs {
+				if gv := p.Ghosts[g]; gv != nil {
+					out["GH.u."+g] = gv.Sort
+				}
+			}
 			for _, gs := range ct.Sets {
 				if gv := p.Ghosts[gs.Name]; gv != nil {
 					out["GH.u."+gs.Name] = gv.Sort
